@@ -3,6 +3,9 @@
 import json, subprocess
 ALL = ["C%02d" % i for i in range(1, 21)]
 CLAIMED = {
+ "C10": dict(level="exploration", technique="runtime monitor with a per-id lifecycle state-machine model: ProcessEvent action values (version tags), RuleEnabled, ListRules and the disabled-location error matrix checked after every step of generated walks",
+   text="Generated walks through add/overwrite/remove/disable/enable/reload/location toggles are executed on real locations (both states, with and without a parent); after every step an event per rule id must run exactly the live, enabled, latest version; held-on-K-steps assurance for a safety property over all paths of the lifecycle machine.",
+   note="Trusts the lifecycle model stated in DESIGN §5 C10 (flag belongs to the id); JavaScript actions return constant tags.", ref="§5 C10"),
  "C08": dict(level="exploration", technique="runtime differential + structural invariant at quiescent points: live state, MemStorage contents and ListRules vs the model's dependency closure after every deletion; per-call watchdog for termination",
    text="Generated dependency graphs (cycles, self-loops, dangling targets, rules, property facts, variable-looking ids) are built in real locations of both state kinds; after each explicit, dependent or expiry-triggered deletion the survivors in memory and in storage must equal the model closure and the call must return.",
    note="Trusts lib/ref.Loc.Rem; MemStorage only (durability across back ends is C06); expiry cascades use ttl 1 s observed after 2.2 s.", ref="§5 C08"),
